@@ -167,6 +167,7 @@ deriving Repr, Inhabited
 
 structure Item where
   bad : Bool                       -- building the coroutine for this element raises
+  raises : Bool := false           -- the argument iterator raises instead of yielding this element
 deriving DecidableEq, Repr, Inhabited
 
 inductive ReqKind | apply | map
